@@ -4,7 +4,7 @@ import random
 from harness import common as C
 
 RULE_FILES = ["Rules/RealPrelude.v", "Rules/ScalarRules.v", "Rules/Complex.v", "Containers/VSpace.v",
-              "Containers/VSpaceProof.v", "Array/Broadcast.v", "Array/Run01.v", "Array/MatMul.v", "Array/Index.v", "Array/Select.v", "Array/RunSel.v", "Rules/Stats.v", "Rules/StatsProof.v", "Array/RunStats.v", "Array/Bilinear.v", "Array/RunBil.v", "Rules/ComplexRing.v", "Array/RunBilC.v"]
+              "Containers/VSpaceProof.v", "Array/Broadcast.v", "Array/Run01.v", "Array/MatMul.v", "Array/Index.v", "Array/Select.v", "Array/RunSel.v", "Rules/Stats.v", "Rules/StatsProof.v", "Array/RunStats.v", "Array/Bilinear.v", "Array/RunBil.v", "Rules/ComplexRing.v", "Array/RunBilC.v", "Array/Realified.v", "Array/RunReal.v"]
 IMPORTS = ("From Coq Require Import List ZArith.\nImport ListNotations.\n"
            "From AG Require Import VSpace VSpaceProof Broadcast Run01 MatMul.\nLocal Open Scope Z_scope.\n")
 
@@ -179,6 +179,34 @@ def run_bilinear_complex(res, tag, seed):
     return bad, tie, None
 
 
+def term_real(c):
+    zl = lambda l: C.clist([C.cz(x) for x in l])  # noqa: E731
+    S = C.clist(["(mk %s %s %s %s)" % (C.cnat(a), C.cnat(b), C.cnat(o), C.cz(k)) for a, b, o, k in c["S"]])
+    jv = "None" if c["jvp"] is None else "(Some %s)" % zl(c["jvp"])
+    return ("{| e_na := %s; e_no := %s; e_cin := %s; e_cout := %s; e_S := %s; e_a := %s; e_da := %s; e_dy := %s; e_g := %s; e_vjp := %s; "
+            "e_jvp := %s; e_ok := %s |}" % (C.cnat(c["na"]), C.cnat(c["no"]), C.cbool(c["cin"]), C.cbool(c["cout"]), S, zl(c["a"]), zl(c["da"]),
+                                            zl(c["dy"]), zl(c["g"]), zl(c["vjp"]), jv, C.cbool(c["ok"])))
+
+
+def run_realified(res, tag, seed):
+    """R-linear primitives on complex / real arrays (FFT family, real / imag / conj, complex constants): realified model"""
+    out, err = C.run_impl("impl_realified.py", {"seed": seed})
+    if out is None:
+        return [], [], err
+    cases = out["cases"]
+    for k, v in out["dist"].items():
+        res.count(k, v)
+    imports = ("From Coq Require Import List ZArith.\nImport ListNotations.\n"
+               "From AG Require Import Bilinear RunBil Realified RunReal.\nLocal Open Scope Z_scope.\n")
+    codes = C.coq_eval(tag + "_real", imports, "", [term_real(c) for c in cases], "checkreal")
+    res.add_cases(len(cases), [("real", c["prim"], c["tag"]) for c in cases], [{"primitive": c["prim"], "configuration": c["tag"]} for c in cases[:1]])
+    bad = [dict(c, site={"primitive": c["prim"]}, primitive=c["prim"], configuration=c["tag"], property="C09",
+                what="R-linear primitive: shape or kind (real / complex) of a result wrong, or a non-integer derivative of an integer map")
+           for c, k in zip(cases, codes) if k == 2]
+    tie = [c for c, k in zip(cases, codes) if k == 1]
+    return bad, tie, None
+
+
 def term_stat(c):
     ql = lambda l: C.clist(["(%d # %d)" % (a, b) for a, b in l])  # noqa: E731
     jv = "None" if c["jvp"] is None else "(Some %s)" % ql(c["jvp"])
@@ -275,6 +303,9 @@ def run(res, tier, seed, broken, props, with_bcast):
     if "C09" in props or "C05" in props:
         b, t, err = run_bilinear_complex(res, "blc_" + props[0].lower(), seed)
         bad, tie = bad + b, tie + t
+        if not err:
+            b, t, err = run_realified(res, "rl_" + props[0].lower(), seed)
+            bad, tie = bad + b, tie + t
         if err:
             broken = broken + [{"obligation": "complex bilinear correspondence failed to run", "log": err[-3000:]}]
     ob, err = run_oracle(res, props, tier, seed)
